@@ -197,7 +197,7 @@ def zeros (k : Nat) : List Rat := List.replicate k 0
 def unitV (k i : Nat) : List Rat := (List.range k).map fun j => if j = i then 1 else 0
 def subRow (a b : List Rat) (f : Rat) : List Rat := List.zipWith (fun x y => x - f * y) a b
 
-/-- Result of `_phase1`: status (`OPTIMAL`/`INFEASIBLE`), iterations, tableau (artificial columns
+/-- Result of `_phase1`: status (`OPTIMAL`/`INFEASIBLE`/`MAX_ITER`), iterations, tableau (artificial columns
 removed and objective row restored when feasible) and the final phase-1 objective row (with the
 artificial columns) from which the Farkas vector is read. -/
 structure P1 where
@@ -240,7 +240,9 @@ def phase1 (eps : Rat) (maxIter n m : Nat) (t : Tab) : P1 :=
   let r := phase2 eps maxIter 0 ⟨rows1, obj1, basis1⟩
   let near := phase2Near eps maxIter ⟨rows1, obj1, basis1⟩
   let t2 := r.tab
-  if lastR t2.obj < -eps then ⟨.INFEASIBLE, r.iters, t2, t2.obj, near⟩ else
+  if lastR t2.obj < -eps then
+    -- out of iterations before phase 1 finished: infeasibility is not established
+    ⟨if r.status = .MAX_ITER then .MAX_ITER else .INFEASIBLE, r.iters, t2, t2.obj, near⟩ else
   let t3 := driveOut eps nm t2
   -- remove the artificial columns, restore the original objective row
   let rows4 := t3.rows.map fun row => row.take nm ++ [lastR row]
@@ -301,7 +303,9 @@ def solveLp (c : Vec) (A : Mat) (b : Vec) (minimize : Bool) (eps : Rat) (maxIter
     ⟨r.status, x, some o, iters0 + r.iters, cert, ph1, near⟩
   if (List.range m).any fun i => decide (lastR (rows.getD i []) < -eps) then
     let p := phase1 eps maxIter n m t0
-    if p.status != .OPTIMAL then
+    if p.status = .MAX_ITER then
+      ⟨.MAX_ITER, zeros n, none, p.iters, [], true, p.near⟩
+    else if p.status != .OPTIMAL then
       ⟨.INFEASIBLE, zeros n, none, p.iters, slackPart p.p1obj, true, p.near⟩
     else fin p.iters true (p.near || phase2Near eps (maxIter - p.iters) p.tab)
       (phase2 eps (maxIter - p.iters) 0 p.tab)
